@@ -133,6 +133,23 @@ theorem inner_check_both_none (a b : Bytes) (x y c : UInt8) (hxy : x ≠ y)
   exact ⟨fun h => hxy (crc_single_byte a b x y (hc.trans h.symm)),
          fun h => hxy (checksum_single_byte a b x y (hs.trans h.symm))⟩
 
+/-! ### the body check as translated from the source text -/
+
+/-- **C13 about the translated `Response.validate`**: a payload is accepted exactly when its last byte is the CRC-8 or the
+    additive checksum of the rest. -/
+theorem body_check_code (body : Bytes) (c : UInt8) :
+    Generated.Codec.responseValidate (body ++ [c]) = .ok () ↔ (crc8 body = c ∨ checksum body = c) := by
+  rw [CodecEq.responseValidate_eq]; exact respValidate_ok_iff body c
+
+/-- **C13 about the translated `Response.validate`**: of all the single-byte substitutions at one position of a payload
+    that passed, at most one passes again (and only through the other algorithm). -/
+theorem inner_check_at_most_one_code (a b : Bytes) (x y₁ y₂ c : UInt8) (h1 : x ≠ y₁) (h2 : x ≠ y₂)
+    (horig : Generated.Codec.responseValidate (a ++ [x] ++ b ++ [c]) = .ok ())
+    (hs1 : Generated.Codec.responseValidate (a ++ [y₁] ++ b ++ [c]) = .ok ())
+    (hs2 : Generated.Codec.responseValidate (a ++ [y₂] ++ b ++ [c]) = .ok ()) : y₁ = y₂ := by
+  rw [CodecEq.responseValidate_eq] at horig hs1 hs2
+  exact inner_check_at_most_one a b x y₁ y₂ c h1 h2 horig hs1 hs2
+
 /-- every reply frame of the script is rejected -/
 def AllRejected (replies : Replies) : Prop :=
   ∀ reply ∈ replies, ∀ f ∈ reply, ∃ e, construct f = .error e
